@@ -343,6 +343,9 @@ class Source:
                 kw["fixer"] = fixer_arg(fx)
         if self.extra.get("origin") is not None:
             kw["origin"] = self.extra["origin"]
+        if self.extra.get("location_sheet") and self.api in ("parse_blocks", "read_csv"):
+            from pdtable.table_origin import NullLocationFile
+            kw["location_sheet"] = NullLocationFile("given by the caller").make_location_sheet()
         if self.api == "parse_blocks":
             self.last_rows = self.seen[0] if self.shared else [list(r) for r in self.seen[0]]
             return parse_blocks(iter(self.last_rows), **kw)
@@ -548,7 +551,8 @@ def one_case(rng, out, seed, idx, tmp, ops, pend, model_ok):
     extra = {"csv_route": rng.choice([None, None, "str", "path"]) if api == "read_csv" else None,
              "pattern": rng.choice([None, None, "sh0", "sh1", "sh", "sh[01]$", "nomatch"]) if api == "read_excel" else None,
              "origin": rng.choice([None, None, "somewhere.csv"]) if api != "read_excel" else rng.choice([None, "wb"]),
-             "reuse_fixer": rng.random() < 0.3}
+             "reuse_fixer": rng.random() < 0.3,
+             "location_sheet": api != "read_excel" and rng.random() < 0.3}
     src = Source(api, sheets, tmp, sep, tag=f"c{idx}", extra=extra)
     case = {"seed": seed, "index": idx, "api": api, "to": to, "tracker": tracker, "fixer": fx, "sep": sep,
             "sheets": [grid_to_json(s) for s in src.seen_all], "extra": extra,
